@@ -2,13 +2,15 @@
 from cs_util import *  # noqa: F401,F403
 
 
-def _ex(rng, bp, mode="generate", proj="p0", diag=None, seed=None, out=None, expect_fail=None):
+def _ex(rng, bp, mode="generate", proj="p0", diag=None, seed=None, out=None, expect_fail=None, bp_locs=None):
     st = {"op": "exec", "proj": proj, "mode": mode, "bp": bp, "hash_seed": rng.hash_seed() if seed is None else seed,
           "diag": diag}
     if out:
         st["out"] = out  # another spelling of the same output directory ($WS = the workspace root)
     if expect_fail:
         st["expect_fail"] = expect_fail
+    if bp_locs:
+        st["bp_locs"] = bp_locs  # "gone": every source location of the blueprint names a file that does not exist
     return st
 
 
@@ -85,7 +87,7 @@ class Planner:
         rng = self.rng("edit", i)
         bp = rng.choice(self.dep_heavy) if rng.chance(4, 5) else rng.choice(self.valid)
         e = rng.weighted([(9, "move_a_b"), (3, "move_b_c"), (3, "dep_sig"), (2, "dep_lifecycle"), (2, "dep_body"),
-                          (2, "dep_feature"), (2, "app_sig"), (2, "app_path"), (4, "dep_include")])
+                          (2, "dep_feature"), (2, "app_sig"), (2, "app_path"), (4, "dep_include"), (3, "app_version")])
         steps = []
         if rng.chance(1, 2):
             steps.append(_ex(rng, bp, diag=_diag_gen(rng)))
@@ -251,6 +253,56 @@ class Planner:
                 self.ui_sweep(1000 * rd + j, order[j:j + per_history])
         del r
 
+    def seeds(self, i, bp):
+        """many process-level hash seeds for one blueprint: the output directory holds the golden bytes
+        and `--check` (which computes every file and compares) must agree under each seed"""
+        rng = self.rng("seeds", i)
+        steps = [{"op": "seed_outdir", "proj": "p0", "state": "golden", "bp": bp, "toggles": []}]
+        for _ in range(5 if self.tier == "quick" else 12):
+            steps.append(_ex(rng, bp, mode="check", diag="diag.dot" if rng.chance(1, 2) else None))
+        steps.append(_ex(rng, bp, diag="diag.dot"))
+        self.add("seeds", rng, steps)
+
+    def shrink_deps(self, i):
+        """the SDK on disk was generated for a blueprint that needs MORE crates than the current one"""
+        rng = self.rng("shrink_deps", i)
+        light = [b for b in self.valid if b not in self.dep_heavy]
+        bp = rng.choice(light)
+        other = rng.choice(self.dep_heavy)
+        steps = [{"op": "seed_outdir", "proj": "p0", "state": "golden_other", "bp": other, "toggles": []},
+                 _ex(rng, bp, mode="check"), _ex(rng, bp, diag=_diag_gen(rng)), _ex(rng, bp, mode="check")]
+        self.add("shrink_deps", rng, steps)
+
+    def moved_blueprint(self, i):
+        """a blueprint serialised on another checkout: its source locations name files that are not
+        there, so every diagnostic that wants a snippet meets an I/O error"""
+        rng = self.rng("moved", i)
+        bp = rng.choice(self.valid + self.invalid)
+        steps = []
+        if rng.chance(1, 2):
+            steps.append(_seed_outdir(rng, bp, self.valid))
+        steps.append(_ex(rng, bp, diag=_diag_gen(rng), bp_locs="gone"))
+        steps.append(_ex(rng, bp, mode="check", bp_locs="gone"))
+        if bp in self.valid:
+            steps.append(_ex(rng, bp, diag=_diag_gen(rng)))
+        self.add("moved_blueprint", rng, steps)
+
+    def bad_diag(self, i):
+        """--diagnostics names a path that cannot be written (its directory does not exist, or it is a
+        directory) while the SDK on disk is out of date: the run fails and must leave the SDK alone"""
+        rng = self.rng("bad_diag", i)
+        bp = rng.choice(self.valid)
+        other = rng.choice([b for b in self.valid if b != bp])
+        d = rng.choice(["no-such-dir/diag.dot", "simapp/src", "no-such-dir/deeper/diag.dot"])
+        pre = rng.weighted([(4, "golden_other"), (2, "flipped")])
+        step0 = {"op": "seed_outdir", "proj": "p0", "state": pre, "bp": other if pre == "golden_other" else bp, "toggles": []}
+        if pre == "flipped":
+            step0["flip"] = {"file": "sdk/src/lib.rs", "draw": rng.below(1 << 30)}
+        steps = [step0, _ex(rng, bp, diag=d, expect_fail="unwritable-diagnostics"),
+                 _ex(rng, bp, mode="check", diag=d, expect_fail="unwritable-diagnostics"),
+                 _ex(rng, bp, diag="diag.dot"), _ex(rng, bp, mode="check", diag="diag.dot")]
+        self.add("bad_diag", rng, steps)
+
     def empty(self, i):
         rng = self.rng("empty", i)
         bp = rng.choice(self.valid)
@@ -284,6 +336,10 @@ class Planner:
                 self.empty(i)
             for i in range(3 if q else 28):
                 self.outpath(i)
+            for i, bp in enumerate(self.valid):
+                self.seeds(i, bp)
+            for i in range(2 if q else 12):
+                self.shrink_deps(i)
             self.ui_mix(24 if q else None, 3, 1 if q else 3, "accept")
             if not q:
                 for rep in range(1, 9):
@@ -315,6 +371,12 @@ class Planner:
                 self.outpath(100 + i)
             for i in range(2 if q else 16):
                 self.broken_sdk(i)
+            for i in range(3 if q else 30):
+                self.moved_blueprint(i)
+            for i in range(2 if q else 16):
+                self.bad_diag(i)
+            for i in range(1 if q else 6):
+                self.shrink_deps(100 + i)
             self.ui_mix(24 if q else None, 3, 1 if q else 3, "reject")
             if not q:
                 for rep in range(1, 8):
